@@ -1,3 +1,4 @@
+import pickle
 import threading as mt
 import multiprocessing as mp
 
@@ -60,6 +61,11 @@ class ProcessLine(spawn_context.Process):
                 ),None
             else:
                 ex,tb = e,format_tb(e.__traceback__)
+                try:
+                    pickle.loads(pickle.dumps(ex))
+                except Exception:
+                    #it can't be rebuilt in the parent process (e.g., an __init__ with its own signature)
+                    ex = CobaException(f"{type(e).__name__}: {e}")
         except KeyboardInterrupt as e:
             ex,tb = e,None
         else:
